@@ -7,6 +7,7 @@ import random
 from hypothesis import strategies as st
 
 from cpverif import spec as S
+from cpverif import strategies as G
 from cpverif import trackcheck as T
 from cpverif.core import Ctx, Part, custom_part, hyp_part
 from cpverif.model import expected_notes
@@ -189,6 +190,13 @@ def _relations(draw, ctx):
                 notes = notes + [t + k * span for t in n0]
         if tail_only:
             notes = sorted(set(notes) | {reps * span + 1, reps * span + 2})
+    if draw(st.integers(0, 7)) == 0:
+        # everything moved up across the width of a machine integer, one fastest tempo
+        off = draw(st.sampled_from(G.BIG_OFFSETS_32 + G.BIG_OFFSETS_64))
+        phrases = [[p[0] + off, p[1]] for p in phrases]
+        notes = [t + off for t in notes]
+        return {"phrases": phrases, "notes": notes, "res": draw(st.sampled_from([960, 10 ** 6])), "tempo": [[0, 10 ** 9]],
+                "fmt": 0}
     return {"phrases": phrases, "notes": notes, "res": draw(st.sampled_from([192, 480, 3, 10 ** 6])), "tempo": tempo,
             "fmt": draw(st.one_of(st.just(0), st.just(0), st.integers(1, 10 ** 6)))}
 
